@@ -277,13 +277,40 @@ PROPS['C02'] = {
                     'decoding by an independent implementation is replaced by: specification functions written from the standard + confirmation of the blob length convention on libE57Format files in testdata'],
 }
 
-FIX_COMMITS = ['4bb8197', '4c9a29a', '15147a8', '4e117ba', 'b93d656', 'a099e6e', 'e707a6b', '30d67e9', '4443841', '1d90b93', 'ec0e9b9']
+TRUSTED_ALLOW['simple'] = TRUSTED_ALLOW['rd'] | {
+    'external_body:to_f64', 'external_body:to_i64', 'external_body:convert_to_cartesian', 'external_body:convert_to_spherical',
+    'external_body:convert_intensity', 'external_body:transform_point', 'external_body:shim_move_all', 'external_body:normalize_value',
+}
+UNIT_RLIMIT['simple'] = 40
+PROPS['C05'] = {
+    'level': 'proof',
+    'verus': ['simple'],
+    'kani': ['simple_k', 'wr_k', 'norm_k'],
+    'claim': ('pop_point (Verus, real body): the returned point IS the documented function view_point of the raw values at the front of the queues and the '
+              'metadata — validity from the invalid-state attribute {0,1,2}/{0,1} with the documented defaults when it is absent, coordinates = real value of '
+              'THEIR OWN record (scaled = i*scale+offset by to_f64, Kani), colour/intensity absent exactly when flagged or not stored, each colour channel '
+              'normalised with its own range and the colour switch, intensity with the intensity range and switch, row/column default -1; Err(Invalid) only '
+              'if a stored state lies outside its set. next (Verus, real body, modular over advance/pop_point): never more than `records` points, one '
+              'point per call, terminates, and the "logic error" branch is unreachable, i.e. it fails only where advance or pop_point fail. '
+              'Post-processing (Kani, real functions): which variant results in every (cartesian x spherical) state with all other fields bit-identical '
+              '(full domain); formulas x = r cos(el) cos(az), y = r cos(el) sin(az), z = r sin(el), r/az/el, p\' = R p + t and the quaternion rotation '
+              'matrix schematically with libm abstracted; intensity -> grey only when no colour.'),
+    'trusted': GLOBAL_TRUSTED + [_DEV, _CRC_OFF],
+    'assumptions': [_DEV] + _RD_ASSUME + [
+        'formulas are checked SCHEMATICALLY: libm (cos, sin, atan2, asin, sqrt) replaced by stubs returning distinct exact values, inputs from exact binary grids; libm itself and IEEE rounding are trusted',
+        'contract-only callees inside unit simple: to_f64/to_i64 (Kani wr_k), normalize_value (Kani norm_k), the four post-processing functions (Kani simple_k)',
+        'prepare_indices (Iterator::position closures) is not under contract: assumed to return positions inside the prototype and the first record of each name',
+        'the option setters are single assignments (not under contract); each switch guards exactly one post-processing loop in next (extracted text)',
+        'the simple iterator is specified up to its first Err or None'],
+}
+
+FIX_COMMITS = ['4bb8197', '4c9a29a', '15147a8', '4e117ba', 'b93d656', 'a099e6e', 'e707a6b', '30d67e9', '4443841', '1d90b93', 'ec0e9b9', 'ed32bde']
 
 _PENDING = 'unit not completed yet in the build round (applicable; see DESIGN.md §1) — not claimed until its obligations are discharged'
 NOT_APPLICABLE = {
     'C01': _PENDING,
     'C04': 'lives entirely in format!-built strings and roxmltree parsing; no contract within reach of Verus (no str byte reasoning) or Kani (roxmltree does not finish) can state parse(serialise(x)) = x (DESIGN.md §6)',
-    'C05': _PENDING, 
+     
     'C15': _PENDING, 
     'C18': 'about roxmltree name matching and element lookup over arbitrary XML trees; would need an assumed contract on the dependency, which decides nothing (DESIGN.md §6)',
     'C19': 'whole-file composition of C01+C03+C04 plus writer determinism; the XML half is out of reach and whole-program composition is not a per-function contract; decidable ingredients are discharged under C10/C11/C12 (DESIGN.md §6)',
